@@ -97,6 +97,49 @@ theorem tlsRun_prefix_ext (M : TlsMachine κ σ ο) (o : Opts) (ss : List (TlsSe
 
 end Tls
 
+-- ------------------------------------------------------------------ invariants of the TLS session list
+section Inv
+variable {κ σ ο : Type}
+
+theorem tlsHandle_inv (M : TlsMachine κ σ ο) (o : Opts) (Q : TlsSess σ → Prop) (p : Pkt)
+    (hfeed : ∀ s, Q s → s.matches p = true → Q { s with st := M.feed s.st p })
+    (hnew : candidate o p = true → Q (tlsNew M o p)) (ss : List (TlsSess σ)) (h : ∀ s ∈ ss, Q s) :
+    ∀ s ∈ tlsHandle M o ss p, Q s := by
+  induction ss with
+  | nil =>
+    intro s hs
+    simp only [tlsHandle] at hs
+    split at hs
+    · rename_i hc; simp only [List.mem_singleton] at hs; subst hs; exact hnew hc
+    · simp at hs
+  | cons a rest ih =>
+    intro s hs
+    simp only [tlsHandle] at hs
+    split at hs
+    · rename_i hm
+      rcases List.mem_cons.mp hs with rfl | hs
+      · exact hfeed a (h a (by simp)) hm
+      · exact h s (by simp [hs])
+    · rcases List.mem_cons.mp hs with rfl | hs
+      · exact h _ (by simp)
+      · exact ih (fun t ht => h t (by simp [ht])) s hs
+
+theorem tlsRun_inv (M : TlsMachine κ σ ο) (o : Opts) (Q : TlsSess σ → Prop) (all : List Pkt)
+    (hfeed : ∀ p ∈ all, ∀ s, Q s → s.matches p = true → Q { s with st := M.feed s.st p })
+    (hnew : ∀ p ∈ all, candidate o p = true → Q (tlsNew M o p)) :
+    ∀ (pkts : List Pkt), (∀ p ∈ pkts, p ∈ all) → ∀ ss : List (TlsSess σ), (∀ s ∈ ss, Q s) →
+      ∀ s ∈ tlsRun M o ss pkts, Q s := by
+  intro pkts
+  induction pkts with
+  | nil => intro _ ss h; exact h
+  | cons p ps ih =>
+    intro hsub ss h
+    simp only [tlsRun, List.foldl_cons]
+    exact ih (fun q hq => hsub q (by simp [hq])) _
+      (tlsHandle_inv M o Q p (hfeed p (hsub p (by simp))) (hnew p (hsub p (by simp))) ss h)
+
+end Inv
+
 -- ------------------------------------------------------------------ views of a cut capture
 section Views
 variable {κ : Type}
@@ -251,5 +294,47 @@ theorem framesFrom_ok_opts (prior : Export.Prior) (args : Args) (fk : Option (Li
     | ok ports => exact ⟨_, rfl⟩
 
 end Frames
+
+-- ------------------------------------------------------------------ what every TLS conversation of a run satisfies
+section ConvInv
+variable (H : Crypto.Prims) (P : Cipher.Prims) (info : Nat → Pipeline.Info)
+
+/-- the facts about a conversation object that the export reads: options as given, the roles decided on the first packet
+    (`rolesOf`: the side whose port is a server port), the MAC addresses and the IP version of that packet, and that every
+    packet it holds belongs to its flow, is a packet of the capture's TCP view, and has a server port at one end -/
+structure ConvOk (o : Opts) (all : List Pkt) (s : TlsSess Pipeline.Conn) : Prop where
+  opts : s.st.opts = o
+  server : s.st.server = s.server
+  client : s.st.client = s.client
+  first : ∃ p0 rest, s.st.pkts = p0 :: rest ∧ candidate o p0 = true ∧ (s.server, s.client) = rolesOf o.ports p0 ∧
+    s.st.serverMac = (if s.server == p0.src then (info p0.tag).srcMac else (info p0.tag).dstMac) ∧
+    s.st.clientMac = (if s.server == p0.src then (info p0.tag).dstMac else (info p0.tag).srcMac) ∧
+    s.st.ipv6 = (info p0.tag).ipv6
+  pkts : ∀ q ∈ s.st.pkts, q ∈ all ∧ s.matches q = true ∧ candidate o q = true
+
+theorem convOk_all (o : Opts) (xs : List (Item Keylog.Key)) :
+    ∀ s ∈ tlsConvs H P info o xs, ConvOk info o (tcpView o xs) s := by
+  unfold tlsConvs
+  apply tlsRun_inv (Pipeline.tlsMachine H P info) o (ConvOk info o (tcpView o xs)) (tcpView o xs) ?_ ?_ _ (fun p hp => hp) []
+    (by simp)
+  · intro p hp s hs hm
+    obtain ⟨h1, h2, h3, ⟨p0, rest, h4, h5, h6, h7, h8, h9⟩, h10⟩ := hs
+    refine ⟨h1, h2, h3, ⟨p0, rest ++ [p], by simp [Pipeline.tlsMachine, h4], h5, h6, h7, h8, h9⟩, ?_⟩
+    intro q hq
+    simp only [Pipeline.tlsMachine, List.mem_append, List.mem_singleton] at hq
+    rcases hq with hq | rfl
+    · exact h10 q hq
+    · refine ⟨hp, hm, ?_⟩
+      have hp0 := (h10 p0 (by rw [h4]; simp)).2.1
+      have := sameFlow_of_matches s hp0 hm
+      rw [← candidate_congr_sameFlow o this]; exact h5
+  · intro p hp hc
+    refine ⟨rfl, rfl, rfl, ⟨p, [], rfl, hc, rfl, rfl, rfl, rfl⟩, ?_⟩
+    intro q hq
+    simp only [tlsNew, Pipeline.tlsMachine, List.mem_singleton] at hq
+    subst hq
+    exact ⟨hp, by rw [tlsNew_matches]; exact sameFlow_refl _, hc⟩
+
+end ConvInv
 
 end TLX.Lemmas.ExportProps
